@@ -36,13 +36,7 @@ def translate():
 
 
 def changed():
-    try:
-        cur, ref = drvgen.functions(open(OUT).read()), drvgen.functions(open(REF).read())
-    except FileNotFoundError:
-        return []
-    ch = [n for n, (f, t) in cur.items() if n not in ref or ref[n][1] != t]
-    ch += [n for n in ref if n not in cur]
-    return sorted(set(ch))
+    return sorted(set(n for (n, f) in drvgen.changed_vs(OUT, REF)))
 
 
 def reg_obligations(res, pid):
@@ -52,10 +46,11 @@ def reg_obligations(res, pid):
                                      "refinement to Tables/RegList.v re-proved (Tables/RegRefine.v); this property carries the obligations of %s"
                                      % ", ".join(mine_fns))
     if BROKEN is not None:
-        m = re.search(r"\(function (\w+)\)", BROKEN.detail)
-        f = m.group(1) if m else None
+        ch = sorted(set(n for (n, _) in drvgen.failed_functions(BROKEN.detail)) | set(changed()))
         res.cov["obligations"] = res.cov.get("obligations", 0) + len(ths)
-        if f is None or f in mine_fns:
+        res.cov["changed_source_functions"] = ch
+        f = ", ".join(ch)
+        if not ch or any(c in mine_fns for c in ch):
             res.broken.append(BROKEN)
         else:
             res.partial.append("register-list source tie not re-established on this run: the translator stopped in %s, which another "
